@@ -254,3 +254,22 @@ int snprintf(char *buf, size_t size, const char *fmt, ...)
     va_end(ap);
     return r;
 }
+
+/* ---------------------------------------------------------------------- */
+/* constant-capacity malloc (opt-in, -DVL_MALLOC_CAP=n)                     */
+/* ---------------------------------------------------------------------- */
+/* Heap objects of symbolic size force CBMC's array theory and dominate the solver time (DESIGN 2.3).
+ * Functional harnesses may therefore select this model: every block has the constant capacity
+ * VL_MALLOC_CAP (asserted sufficient).  Overruns inside the slack are then NOT seen by this query -
+ * the dedicated memory-safety queries of C02 use CBMC's exact malloc. */
+#if defined(VL_MALLOC_CAP) && defined(VERIF_CBMC)
+extern void *__CPROVER_memory_leak;
+void *malloc(size_t n)
+{
+    V_ASSERT(n <= VL_MALLOC_CAP, "MODEL malloc: request larger than harness capacity VL_MALLOC_CAP (raise the bound)");
+    void *p = __CPROVER_allocate(VL_MALLOC_CAP, 0);
+    __CPROVER_bool record = __VERIFIER_nondet___CPROVER_bool();
+    __CPROVER_memory_leak = record ? p : __CPROVER_memory_leak;
+    return p;
+}
+#endif
